@@ -9,6 +9,7 @@ import r_storage
 import r_crypto
 import r_wire
 import r_servers
+import r_task
 
 PROPS = {}
 
@@ -69,7 +70,7 @@ PROPS["C05"] = {
     "assumptions": [],
 }
 PROPS["C07"] = {
-    "rules": [r_taskdb.rule_U1, r_taskdb.rule_U2, r_taskdb.rule_U3, lambda F, R: r_txn.rule_T1(F, R, only=("commit_reversed_operations",)), r_taskdb.rule_R4],
+    "rules": [r_taskdb.rule_U1, r_taskdb.rule_U2, r_taskdb.rule_U3, lambda F, R: r_txn.rule_T1(F, R, only=("commit_reversed_operations",)), r_taskdb.rule_R4, r_task.rule_M1, r_task.rule_M2],
     "explanation": "U1 reversal table of reverse_ops (exhaustive over Operation variants, field-level: old value restored); U2 commit_reversed_operations (early returns write nothing, suffix-equality tail match, reversed iteration, every reversed op applied, remove_operation per undone op); U3 only unsynchronised operations are offered and removable; T1 single transaction; rebuild without renumbering afterwards.",
     "not_decided": "exact state restoration for all histories (needs recorded old values to be right, see C19); interaction with later commits",
     "assumptions": [],
@@ -120,6 +121,18 @@ PROPS["C11"] = {
     "rules": [r_servers.rule_A1_local, lambda F, R: r_cloud.rule_K(F, R, which=("K2", "K5", "K4")), r_servers.rule_GI],
     "explanation": "A1 the local backend's accept path is one SQLite transaction (read, both writes, one commit); K5/K2 object store: the version object exists before `latest` can name it and nothing is acknowledged without the swap; GI git: commit of version file and meta precedes the push and Ok only on push()==true.",
     "not_decided": "git's and SQLite's on-disk behaviour at a kill; restart-and-continue histories; the git backend's error exits between writing meta and committing",
+    "assumptions": [],
+}
+PROPS["C19"] = {
+    "rules": [r_task.rule_M1, r_task.rule_M2, r_task.rule_M3, r_task.rule_M4, r_task.rule_M5, r_task.rule_M6, r_task.rule_M7, r_task.rule_M8],
+    "explanation": "M1 single writer of the task map / single constructor of Operations; M2 TaskData::update records the looked-up previous value (lookup precedes the change), delete records the old task; M3 every public Task mutator funnels into TaskData::update; M4 `modified` refresh table of set_value (exhaustive, 6 paths) incl. the once-per-session flag; M5 status/end table of set_status (8 rows); M6 reserved-name guards dominate the writes; M7 writer/reader key-prefix vocabulary and timestamp encoding; M8 synthetic-tag table and pending-gated dependency edges.",
+    "not_decided": "agreement of the held object with storage after commit for all mutator sequences (follows from M1-M3 + C05, but is a statement about sequences)",
+    "assumptions": [],
+}
+PROPS["C20"] = {
+    "rules": [r_task.rule_E, r_transform.rule_DELETE_WINS, r_task.rule_M1],
+    "explanation": "E1 expiration predicate (status == Deleted's storage string, `modified` parsed, strictly older than now - Duration::days(180)); E2 purge through TaskData::delete + commit_operations (ordinary synchronised deletions); TR/DEL delete beats a concurrent update in both argument orders (exhaustive over the abstract space); M1 operations are only built by TaskData.",
+    "not_decided": "the multi-replica outcome after sync as a property of histories",
     "assumptions": [],
 }
 # reasons shown in MANIFEST.not_applicable for properties not (yet) claimed
